@@ -153,6 +153,48 @@ func runC09(c *Ctx) {
 		rec(0)
 		c.Extra["exhaustive_strings"] = cnt
 	})
+	// A2. minimal forms: every tag followed by every string over {0,1} of length <= 8 and by runs of
+	// zeros / ones up to 16 bytes (all length and count fields zero or one, cut at every offset), alone,
+	// after a host setting and before a separator. These are the shortest inputs that reach each
+	// setting's header guard with the header exactly at, one short of and one past the end.
+	c.Cases("minimal", 1, func(r *Rng, _ int) {
+		tags := map[byte]bool{}
+		pre := []byte(cfg.Pack(cfg.Host("a")))
+		cnt := 0
+		for _, t := range cfg.VerifTags {
+			if tags[t.V] || t.V == 0 {
+				continue
+			}
+			tags[t.V] = true
+			emit := func(tail []byte) {
+				b := append([]byte{t.V}, tail...)
+				one(exact(b), true, "minimal")
+				one(exact(append(append([]byte{}, pre...), b...)), true, "minimal")
+				one(exact(append(append([]byte{}, b...), byte(cfg.Separator))), len(tail) >= 4, "minimal")
+				c.Eval(true, hx(b))
+				cnt += 3
+			}
+			maxK := c.N(7, 9)
+			for k := 0; k <= maxK; k++ {
+				for m := 0; m < 1<<uint(k); m++ {
+					tail := make([]byte, k)
+					for j := 0; j < k; j++ {
+						tail[j] = byte(m >> uint(j) & 1)
+					}
+					emit(tail)
+				}
+			}
+			for k := maxK + 1; k <= 16; k++ {
+				emit(make([]byte, k))
+				o := make([]byte, k)
+				for j := range o {
+					o[j] = 1
+				}
+				emit(o)
+			}
+		}
+		c.Extra["minimal_inputs"] = cnt
+	})
 	// B. guided mutation of valid configs
 	c.Cases("mut", c.N(400, 600), func(r *Rng, i int) {
 		var g gCase
